@@ -47,6 +47,39 @@ class Typestate:
     def un(state):
         return dict(state[0]), dict(state[1]), state[2], state[3]
 
+    def _syncing_methods(self):
+        """Methods that place through the placement cache (<cache>.append(item)) - themselves, through an own helper they call, or, for a private
+        helper, because every caller of it in the class does: extracting `_pick_placement` / `_place` from a bulk-placement loop keeps the idiom."""
+        if getattr(self, '_sync_cache', None) is not None:
+            return self._sync_cache
+        meths = {}
+        for c in self.repo.mro(self.ci):
+            for mn, f in c.methods.items():
+                meths.setdefault(mn, f)
+
+        def appends(fn):
+            return any(
+                isinstance(c, ast.Call) and isinstance(c.func, ast.Attribute) and c.func.attr == 'append' and
+                ('_placement_cache' in ast.unparse(c.func.value) or
+                 any(isinstance(a, ast.Assign) and isinstance(a.targets[0], ast.Name) and a.targets[0].id == ast.unparse(c.func.value)
+                     and '_placement_cache' in ast.unparse(a.value) for a in ast.walk(fn)))
+                for c in ast.walk(fn))
+
+        def callees(fn):
+            return {c.func.attr for c in ast.walk(fn) if isinstance(c, ast.Call) and isinstance(c.func, ast.Attribute) and isinstance(c.func.value, ast.Name)
+                    and c.func.value.id == 'self' and c.func.attr in meths}
+        sync = {mn for mn, f in meths.items() if appends(f)}
+        for _ in range(2):
+            sync |= {mn for mn, f in meths.items() if any(c.startswith('_') and not c.startswith('__') and c in sync for c in callees(f))}
+        # private helpers called only from syncing methods
+        for mn, f in meths.items():
+            if mn.startswith('_') and not mn.startswith('__') and mn not in sync:
+                callers = [m2 for m2, f2 in meths.items() if f2 is not f and mn in callees(f2)]
+                if callers and all(m2 in sync for m2 in callers):
+                    sync.add(mn)
+        self._sync_cache = sync
+        return sync
+
     def write(self, v):
         mode, pm, sync = v
         mode = {'E': 'E', 'C': 'D', 'D': 'D'}[mode]
@@ -312,12 +345,7 @@ class Typestate:
         # idiom "bulk placement": a function that places items through the placement cache
         # (<cache>.append(item)) keeps the cache in step with the writes it makes; the loops that
         # place and the loops that materialise are correlated by construction (cache._length)
-        self.fn_syncs = any(
-            isinstance(c, ast.Call) and isinstance(c.func, ast.Attribute) and c.func.attr == 'append' and
-            ('_placement_cache' in ast.unparse(c.func.value) or
-             any(isinstance(a, ast.Assign) and isinstance(a.targets[0], ast.Name) and a.targets[0].id == ast.unparse(c.func.value)
-                 and '_placement_cache' in ast.unparse(a.value) for a in ast.walk(fn)))
-            for c in ast.walk(fn))
+        self.fn_syncs = fn.name in self._syncing_methods()
         try:
             return self._analyse(fn, mode, pm)
         finally:
@@ -353,6 +381,7 @@ def run(ctx):
     _placement_sites_key_aware(ctx, repo)
     _inline_cursor_monotone(ctx, repo)
     _batch_reference_index(ctx, repo)
+    _derived_circuits_keep_tags(ctx, repo)
     ctx.decided.append('C05.l placement bookkeeping keeps, per control key, the latest moment that reads it (running maximum)')
     ctx.decided.append('C05.k the control keys the placement logic orders operations by cover every child of a wrapping operation')
     ctx.decided.append('C05.j a one-shot OP_TREE / Iterable argument is walked once: after it has been flattened into a local, the raw argument is not consumed again')
@@ -982,12 +1011,26 @@ def _batch_reference_index(ctx, repo):
     if fn is None:
         raise AnalysisError('Circuit.insert vanished')
     par = ci.mod.parents()
-    calls = [c for c in ast.walk(fn) if isinstance(c, ast.Call) and isinstance(c.func, ast.Attribute) and c.func.attr == 'earliest_available_moment']
-    n = 0
-    for c in calls:
-        kv = next((k.value for k in c.keywords if k.arg == 'end_moment_index'), None)
-        if not isinstance(kv, ast.Name):
+    # the scan for the earliest moment, called directly or through an own helper of the class (a `_pick_placement` extracted from the loop body)
+    def scans(f):
+        return any(isinstance(c, ast.Call) and isinstance(c.func, ast.Attribute) and c.func.attr == 'earliest_available_moment' for c in ast.walk(f))
+    helper_names = {mn for mn, f in ci.methods.items() if f is not fn and scans(f)}
+    top_assigned = {t.id for st in fn.body if isinstance(st, (ast.Assign, ast.AugAssign)) for t in (st.targets if isinstance(st, ast.Assign) else [st.target]) if isinstance(t, ast.Name)}
+    calls = []
+    for c in ast.walk(fn):
+        if not (isinstance(c, ast.Call) and isinstance(c.func, ast.Attribute)):
             continue
+        if c.func.attr == 'earliest_available_moment':
+            kv0 = next((k.value for k in c.keywords if k.arg == 'end_moment_index'), None)
+            calls.append((c, [kv0] if isinstance(kv0, ast.Name) else []))
+        elif c.func.attr in helper_names and isinstance(c.func.value, ast.Name) and c.func.value.id == 'self':
+            # the reference index among the helper's arguments: a name the function initialises at its top level (k = clamp(index))
+            calls.append((c, [a for a in list(c.args) + [k.value for k in c.keywords] if isinstance(a, ast.Name) and a.id in top_assigned]))
+    n = 0
+    for c, kvs in calls:
+        if not kvs:
+            continue
+        kv = kvs[0]
         loop = c
         while loop in par and not isinstance(loop, (ast.For, ast.While)):
             loop = par[loop]
@@ -1012,3 +1055,47 @@ def _batch_reference_index(ctx, repo):
                bad[0].lineno if bad else c.lineno)
     if n == 0:
         raise AnalysisError('Circuit.insert: earliest_available_moment(.., end_moment_index=<name>) inside a loop vanished')
+
+
+def _derived_circuits_keep_tags(ctx, repo):
+    """C05.q - a circuit derived from self (same moments, rewritten operations) keeps the tags of self, like its siblings."""
+    ctx.decided.append('C05.q every method of the circuit classes that returns a circuit built from the receiver\'s own moments passes tags= (siblings agree: tags are part of the value and of equality)')
+    ctx.rule('C05.q', 'derived circuits keep their tags: in AbstractCircuit / Circuit / FrozenCircuit, a `return` that constructs a circuit (Circuit(...), cls(...), self._from_moments(...)) from '
+             'an argument computed from the receiver\'s moments (self._moments / self.moments / iteration over self, directly or through a local) passes tags= - transform_qubits without it '
+             'returns a circuit that is unequal to the same circuit built on the new qubits', floor=8, style='COH')
+    n = 0
+    for cq in ('cirq.circuits.circuit.AbstractCircuit', 'cirq.circuits.circuit.Circuit', 'cirq.circuits.frozen_circuit.FrozenCircuit'):
+        ci = repo.cls(cq)
+        for mn, fn in sorted(ci.methods.items()):
+            decs = {ast.unparse(d) for d in fn.decorator_list}
+            if 'staticmethod' in decs or 'classmethod' in decs or not fn.args.args or fn.args.args[0].arg != 'self':
+                continue
+            nested = {id(x) for f in ast.walk(fn) if f is not fn and isinstance(f, (ast.FunctionDef, ast.Lambda)) for x in ast.walk(f)}
+
+            def from_self(e, depth=0):
+                for x in ast.walk(e):
+                    if isinstance(x, ast.Attribute) and isinstance(x.value, ast.Name) and x.value.id == 'self' and x.attr in ('_moments', 'moments'):
+                        return True
+                    if isinstance(x, ast.comprehension) and isinstance(x.iter, ast.Name) and x.iter.id == 'self':
+                        return True
+                    if isinstance(x, ast.Name) and depth < 2 and x.id != 'self':
+                        for a in ast.walk(fn):
+                            if isinstance(a, ast.Assign) and any(isinstance(t, ast.Name) and t.id == x.id for t in a.targets) and from_self(a.value, depth + 1):
+                                return True
+                return False
+            for r in ast.walk(fn):
+                if not (isinstance(r, ast.Return) and isinstance(r.value, ast.Call)) or id(r) in nested:
+                    continue
+                c = r.value
+                name = ast.unparse(c.func)
+                if name.split('.')[-1] not in ('Circuit', '_from_moments', 'FrozenCircuit') and name not in ('type(self)', 'self.__class__', 'cls'):
+                    continue
+                args = list(c.args) + [k.value for k in c.keywords if k.arg != 'tags']
+                if not any(from_self(a) for a in args):
+                    continue
+                n += 1
+                ok = any(k.arg == 'tags' for k in c.keywords)
+                ctx.ob('C05.q', f'{cq}.{mn}:tags@{r.lineno - fn.lineno}', ok, '' if ok else
+                       f'`{ast.unparse(r)[:70]}` builds the result from the receiver\'s moments and drops its tags', ci.mod.rel, r.lineno)
+    if n == 0:
+        raise AnalysisError('C05.q: no derived-circuit construction found')
